@@ -534,6 +534,12 @@ func runScenario(job *Job) (res Result) {
 		case strings.Contains(stopAt, "proc.(*listener).Stop") && serveWaitsForHandlers &&
 			strings.Contains(all, "redis.(*rawRequest).Wait < proc/redis.(*session).loopWrite"):
 			cls = "redis-silent-backend"
+		case strings.Contains(stopAt, "proc.(*listener).Stop") && serveWaitsForHandlers &&
+			strings.Contains(all, "select: proc/redis.(*session).loopRead") && strings.Contains(all, "proc/redis.(*session).loopWrite"):
+			// the session's reader is blocked handing a request to its writer (reply queue full), the
+			// writer waits for the head request: neither reads the connection the listener closed
+			// (W_StopWithFullSessionQueue of spec/proc/RedisStop.tla)
+			cls = "redis-session-queue-full"
 		case strings.Contains(stopAt, "proc.(*listener).Stop") && serveWaitsForHandlers && strings.Contains(all, "tcp.(*tcpProc).pipeConn"):
 			cls = "tcp-silent-backend"
 		case !strings.Contains(stopAt, "proc.(*listener).Stop"):
